@@ -121,6 +121,34 @@ pub(crate) fn should_force_gc() -> bool {
 }
 
 // ---------------------------------------------------------------------------------------------
+// quarantine: when switched on, the header of a freed object is un-charged but not returned to
+// the system allocator, so its address is never reused and the heap audit can tell a dangling
+// pointer from a pointer to a new object that happens to live at the same address.
+
+thread_local! {
+    static QUARANTINE: RefCell<bool> = const { RefCell::new(false) };
+}
+
+pub fn quarantine(on: bool) {
+    QUARANTINE.with(|q| *q.borrow_mut() = on);
+}
+
+pub(crate) fn quarantine_enabled() -> bool {
+    QUARANTINE.with(|q| *q.borrow())
+}
+
+/// un-charge the allocation like `dealloc` does, without releasing the memory
+pub(crate) fn release_without_free(a: &CaoLangAllocator, l: std::alloc::Layout) {
+    let s = l.size() + l.align();
+    a.allocated.fetch_sub(s, Ordering::Relaxed);
+    event(AllocEvent::Dealloc {
+        size: l.size(),
+        align: l.align(),
+        allocated: a.allocated.load(Ordering::Relaxed),
+    });
+}
+
+// ---------------------------------------------------------------------------------------------
 // heap audit: everything reachable from the roots the interpreter can still use must be a live
 // object. Pointers are checked against the object list BEFORE they are dereferenced, so freed
 // memory is never read.
